@@ -601,11 +601,149 @@ Section Tape.
       unfold tape_visit.
       destruct k as [op vi|vi|s|s|st en]; try (eapply Hstatic; reflexivity).
       (* KOpVal, KVal, KScalar, KArr *)
-      all: destruct h; try (apply Hany); try (apply Hmap); try (apply Hsc); try exact I; try exact Hk.
-      all: try (eapply strict_bind; [apply (k_read_str_ok _ n Hk)|]; intros [c|] Hc; [exact Hc|apply Hany]).
-      all: try (eapply strict_bind; [apply (k_read_scalar_ok _ n Hk)|]; intros [c|] Hc; [exact I|apply Hany]).
-      all: try (destruct prop; [|apply Hmap]); try (apply Hmap); try exact Hk.
+      all: destruct h; try exact I; try (exact (Hany _)); try (exact (Hmap _)); try (exact (Hsc _ _)); try exact Hk.
+      all: try (eapply strict_bind; [apply (k_read_str_ok _ n Hk)|]; intros [c|] Hc; [exact Hc|exact (Hany _)]).
+      all: try (eapply strict_bind; [apply (k_read_scalar_ok _ n Hk)|]; intros [c|] Hc; [exact I|exact (Hany _)]).
+      all: try (destruct prop; [|exact (Hmap _)]); try (exact (Hmap _)); try exact Hk.
       all: try (apply tv_seq_ok; exact Hk).
       all: try (apply tv_enum_ok; exact Hk).
       all: try (cbn [is_seq_hint strict tvb]; cbn [kbound] in Hk; destruct Hk; split; auto; lia).
     Qed.
+
+    (* ================================================================ the walk *)
+    Notation de := (TextDeTape.de decode parse_f64 fo t).
+    Notation seq_all := (TextDeTape.seq_all decode parse_f64 fo t).
+    Notation seq_tup := (TextDeTape.seq_tup decode parse_f64 fo t).
+    Notation twalk := (TextDeTape.twalk decode parse_f64 fo t).
+
+    Definition PA (f : nat) : Prop := forall sh k n, kbound k n ->
+      gd2 true (2 * n + mu sh + 1 <= f) (fun _ => True) (de f sh k).
+    Definition PB (f : nat) : Prop := forall s ti en, rng ti en ->
+      gd2 true (2 * (en - ti) + mu s + 2 <= f) (fun _ => True) (seq_all f s ti en).
+    Definition PC (f : nat) : Prop := forall ss ti en SZ, (forall s, In s ss -> mu s <= SZ) -> rng ti en ->
+      gd2 true (2 * (en - ti) + SZ + 2 <= f) (fun _ => True) (seq_tup f ss ti en).
+    Definition PD (f : nat) : Prop := forall m a ti en M, acc_ok m a -> map_ok ti en ->
+      (forall c, wchild m c -> mu c <= M) ->
+      gd2 true (2 * msz ti en + M + 4 <= f) (acc_ok m) (twalk f m a ti en).
+
+    Lemma step_B f : PA f -> PB f -> PB (S f).
+    Proof.
+      intros IA IB s ti en R. cbn [TextDeTape.seq_all].
+      destruct (ti <? en) eqn:E; [|exact I]. apply Nat.ltb_lt in E.
+      destruct (nxv_dyck ti en E R) as (nx & Hnx & L1 & L2 & R2). rewrite Hnx. cbn [obind].
+      eapply gd2_bind.
+      { eapply gd2_mono; [apply (IA s (KVal ti) (en - ti))| |intros x H; exact H].
+        - exists en. split; [exact E|]. split; [exact R|lia].
+        - lia. }
+      intros v _. eapply gd2_bind.
+      { eapply gd2_mono; [apply (IB s nx en R2)|lia|intros x H; exact H]. }
+      intros l _. exact I.
+    Qed.
+
+    Lemma step_C f : PA f -> PC f -> PC (S f).
+    Proof.
+      intros IA IC ss ti en SZ Hss R. cbn [TextDeTape.seq_tup]. destruct ss as [|s ss]; [exact I|].
+      destruct (ti <? en) eqn:E; [|exact I]. apply Nat.ltb_lt in E.
+      destruct (nxv_dyck ti en E R) as (nx & Hnx & L1 & L2 & R2). rewrite Hnx. cbn [obind].
+      pose proof (Hss s (or_introl eq_refl)) as Hs.
+      eapply gd2_bind.
+      { eapply gd2_mono; [apply (IA s (KVal ti) (en - ti))| |intros x H; exact H].
+        - exists en. split; [exact E|]. split; [exact R|lia].
+        - lia. }
+      intros v _. eapply gd2_bind.
+      { eapply gd2_mono; [apply (IC ss nx en SZ)| |intros x H; exact H].
+        - intros s' Hin. apply Hss. right. exact Hin.
+        - exact R2.
+        - lia. }
+      intros l _. exact I.
+    Qed.
+
+    Lemma tvisit_prim_ok' sh p : tprim_wf p -> gd2 true True (fun _ : dval => True) (tvisit_prim fo sh p).
+    Proof. intros Hp. eapply strict_gd2, strict_mono; [apply tvisit_prim_ok; exact Hp|]. intros; exact I. Qed.
+
+    Lemma rec_op_ok (FF : Prop) k n : kbound k n ->
+      gd2 true FF (fun _ : N => True)
+        (do vo <- tape_visit decode parse_f64 t THStr k;
+         match vo with TVPrim p => visit_operator p | _ => Err EC_DE end).
+    Proof.
+      intros Hk. eapply gd2_bind; [apply strict_gd2, (tape_visit_ok THStr k n Hk)|].
+      intros vo _. destruct vo; try exact I. apply strict_gd2, visit_operator_strict.
+    Qed.
+
+    Lemma step_A f : PA f -> PB f -> PC f -> PD f -> PA (S f).
+    Proof.
+      intros IA IB IC ID sh k n Hk. cbn [TextDeTape.de].
+      eapply gd2_bind; [apply strict_gd2, (tape_visit_ok (thint_of sh) k n Hk)|]. intros v Hv.
+      destruct v as [p|k'|k'|st en|st en|op vi|vi rest].
+      - eapply gd2_mono; [apply tvisit_prim_ok'; exact Hv|auto|auto].
+      - destruct sh; try exact I. unfold omap.
+        eapply gd2_bind; [eapply gd2_mono; [apply (IA sh k' n Hv)|unfold mu; cbn [tsize sdepth]; lia|intros x H; exact H]|].
+        intros; exact I.
+      - exact I.
+      - destruct sh; try exact I; cbn [thint_of is_seq_hint tvb] in Hv; destruct Hv as [R Hn]; unfold omap.
+        + eapply gd2_bind; [eapply gd2_mono; [apply (IB sh st en R)|unfold mu; cbn [tsize sdepth]; lia|intros x H; exact H]|].
+          intros; exact I.
+        + eapply gd2_bind.
+          { eapply gd2_mono; [apply (IC ss st en (mu (ShTup ss) - 2))| |intros x H; exact H].
+            - intros s Hin. pose proof (mu_tup ss s Hin). lia.
+            - exact R.
+            - pose proof (mu_pos (ShTup ss)). unfold mu in *. cbn [tsize sdepth] in *. lia. }
+          intros; exact I.
+        + (* Property<T> read from a sequence: operator, value *)
+          destruct (st <? en) eqn:E; [|exact I]. apply Nat.ltb_lt in E.
+          destruct (nxv_dyck st en E R) as (n1 & Hn1 & L1 & L2 & R2). rewrite Hn1. cbn [obind].
+          eapply gd2_bind.
+          { apply (rec_op_ok _ (KVal st) (en - st)). exists en. split; [exact E|]. split; [exact R|lia]. }
+          intros o _. destruct (n1 <? en) eqn:E1; [|exact I]. apply Nat.ltb_lt in E1.
+          eapply gd2_bind; [apply strict_gd2, nxv_strict; destruct R; lia|]. intros _ _.
+          eapply gd2_bind.
+          { eapply gd2_mono; [apply (IA sh (KVal n1) (en - n1))| |intros x H; exact H].
+            - exists en. split; [exact E1|]. split; [exact R2|lia].
+            - unfold mu; cbn [tsize sdepth]; lia. }
+          intros; exact I.
+        + eapply gd2_bind; [eapply gd2_mono; [apply (IB ShAny st en R)|unfold mu; cbn [tsize sdepth]; lia|intros x H; exact H]|].
+          intros; exact I.
+      - destruct Hv as [Hm Hn]. destruct (wmode_of sh) as [m|] eqn:Em; [|exact I].
+        eapply gd2_bind.
+        { eapply gd2_mono; [apply (ID m (acc0 m) st en (mu sh) (acc0_ok m) Hm)| |intros x H; exact H].
+          - intros c Hc. eapply mu_child; eauto.
+          - lia. }
+        intros a Ha. eapply strict_gd2, strict_mono; [apply finish_strict; exact Ha|]. intros; exact I.
+      - destruct sh; try exact I. unfold omap. cbn [tvb] in Hv.
+        eapply gd2_bind; [eapply gd2_mono; [apply (IA sh (KVal vi) n Hv)|unfold mu; cbn [tsize sdepth]; lia|intros x H; exact H]|].
+        intros; exact I.
+      - destruct sh; try exact I. destruct Hv as [(n' & Hk') Hrest].
+        eapply gd2_bind; [apply strict_gd2, (tape_visit_ok THStr (KVal vi) n' Hk')|]. intros vv Hvv.
+        eapply gd2_bind with (P := fun _ => True).
+        { destruct vv; try exact I. apply strict_gd2. unfold tvisit_variant. apply visit_variant_strict. }
+        intros name _. destruct rest as [[st en]|]; [|exact I].
+        destruct (st <? en) eqn:E; [|exact I]. apply Nat.ltb_lt in E.
+        eapply gd2_bind; [apply strict_gd2, nxv_strict; lia|]. intros; exact I.
+    Qed.
+
+    Definition rec_f (f : nat) := fun sh k (_ : unit) => omap (fun v => (v, tt)) (de f sh k).
+    Definition rec_op_f := fun k (_ : unit) =>
+      do vo <- tape_visit decode parse_f64 t THStr k;
+      match vo with TVPrim p => omap (fun o => (o, tt)) (visit_operator p) | _ => Err EC_DE end.
+
+    Lemma twalk_S f m a ti en :
+      twalk (S f) m a ti en =
+      (do fn <- fields_next t ti en;
+       match fn with
+       | Some (key, op, vi, ti') =>
+           let '(kb, knum) := key_info decode (KScalar key) in
+           do r <- entry (rec_f f) rec_op_f m a kb knum (KOpVal (match op with Some o => o | None => Equal end) vi) tt;
+           twalk f m (fst r) ti' en
+       | None =>
+           let '(rs, re) := remainder t ti en in
+           do n <- values_len t (S (length t)) rs re;
+           match n with
+           | O => Ok a
+           | S _ => do r <- entry (rec_f f) rec_op_f m a STR_REMAINDER false (KArr rs re) tt; Ok (fst r)
+           end
+       end).
+    Proof. reflexivity. Qed.
+
+    Lemma step_D f : PA f -> PD f -> PD (S f).
+    Proof.
+      intros IA ID m a ti en M Ha Hm HM. rewrite twalk_S.
